@@ -4,7 +4,7 @@ import os, json, subprocess, resource
 
 ASSUMPTIONS = [
   "L2 works on tokens: the character level (operator spelling, white space, number and string literals, reference and sheet-name spelling) is tied by the correspondence only: for every generated tree the token stream the real lexer reads from the implementation's text must equal the model's printed tokens (after Shape.glue, the token-level model of the three places where the lexer merges or rejects printed tokens around ':'), and the implementation's parse of its text must equal the model's parse of those tokens",
-  "function, boolean and error names enter the theorems as the hypotheses collected in RoundTrip.names_ok (the printed name of a built-in function is looked up to the same function, is not LAMBDA/_xlfn.SINGLE/_xlfn.ANCHORARRAY, str::to_uppercase/to_lowercase are idempotent on what they are applied to); the runner instantiates them with the tables the harness dumps from the built code on every run (T lines), and Shape.image checks them per tree; C23 owns the tables themselves",
+  "function, boolean and error names and str::to_uppercase/to_lowercase are parameters of the models (record Printer.names); what the theorems need of them is part of the per-tree decidable premise Shape.image (the printed name of a built-in function is looked up to the same function and is not LAMBDA/_xlfn.SINGLE/_xlfn.ANCHORARRAY, the lexer reads the error's English spelling back as that error, ...); the runner instantiates the record with the tables the harness dumps from the built code on every run (T lines) with ASCII/Latin-1 case mapping; C23 owns the tables themselves",
   "numbers are canonical decimal texts (what to_excel_precision_str prints); literals with more than 15 significant digits are outside parser_image for the printer (finding F03, checked by the oracle)",
   "the xlsx form is the printer with export_to_excel = true; the rewriting passes of to_excel_string (remove_redundant_implicit_intersection, prefix_bound_variables) are applied by the implementation only; the structural oracle compares modulo remove_redundant_implicit_intersection, the model tie is restricted to trees the passes leave unchanged (C24 owns the passes)",
   "identifiers that are column letters followed by ':' (x:D4), names that look like references in the other notation, structured (table) references and TableNameKind are not generated",
